@@ -83,10 +83,19 @@ pub enum Op {
     Div,
 }
 
-#[derive(Debug, Clone, Eq, Hash)]
+#[derive(Debug, Clone, Eq)]
 pub struct Identifier {
     pub span: Span,
     pub name: String,
+}
+
+// Equality only looks at the name (see the PartialEq impl below), so the hash has to as well:
+// with the derived hash over (span, name) two fields of the same name usually landed in different
+// buckets and the "declared twice" check of blob fields and enum variants almost never fired.
+impl std::hash::Hash for Identifier {
+    fn hash<H: std::hash::Hasher>(&self, state: &mut H) {
+        self.name.hash(state);
+    }
 }
 
 impl Identifier {
